@@ -73,10 +73,18 @@ def _mixed(draw, nmax):
     if k >= 975:
         # the property itself, statistically: who is drawn FIRST (see run_sampling)
         big = draw(st.sampled_from([False, False, True]))
+        mp = draw(st.sampled_from(['ha', 'hr', 'spa']))
+        twopl = True if mp == 'hr' else (draw(st.booleans()) if mp == 'spa' else False)
+        if draw(st.sampled_from(range(4))) == 0:
+            # lists of ONE entry: that entry is the first draw
+            return {'kind': 'sampling', 'n2': draw(st.sampled_from([2, 3, 4])), 'L': 1,
+                    'n1': 6000, 's': draw(st.sampled_from([3.0, 5.0, 9.0, 0.2])), 'mp': mp,
+                    'twopl': twopl and mp != 'hr', 'pmax': draw(st.sampled_from([1, 1, 2])),
+                    'seed': draw(st.sampled_from(range(10000)))}
         return {'kind': 'sampling', 'n2': 1200 if big else draw(st.sampled_from([20, 40])),
                 'L': 60 if big else draw(st.sampled_from([10, 20])), 'n1': 3000,
                 's': draw(st.sampled_from([3.0, 5.0, 9.0, 0.2])),
-                'mp': draw(st.sampled_from(['ha', 'hr', 'spa'])),
+                'mp': mp, 'twopl': twopl,
                 'seed': draw(st.sampled_from(range(10000)))}
     if k >= 965:
         # a big pool of rankable agents and short lists, through Generator(args)
@@ -213,6 +221,49 @@ def run_pipeline(case):
 LAST = {}
 
 
+def run_sampling_single(case, v):
+    """Lists of one entry (pmin = 1): that entry IS the first draw.  With 2-4 agents the
+    weights are far apart (>= 0.08), so the sorted observed frequencies of the one-entry lists
+    must equal the sorted weights.  Tolerance: 7 standard deviations of a frequency (taken
+    at its worst, p = 1/2: 7 * sqrt(0.25 / number of one-entry lists), i.e. 0.045 for 6000
+    lists), false-alarm probability < 3e-12 per frequency."""
+    from .. import genargs
+    n1, n2, s = case['n1'], case['n2'], case['s']
+    outdir = genargs.fresh_outdir()
+    try:
+        status, code, err = genargs.run_generator(genargs.build_argv(v, outdir), v['seed'])
+    except Violation as e:
+        if e.facet.startswith('exception:'):
+            return Result(False, ['sampling', 'skipped:exception'])
+        raise
+    if status != 'ok':
+        return Result(False, ['sampling', 'skipped:rejected'])
+    lines = genargs.read_outputs(outdir, 1)[0].split('\n')[1:1 + n1]
+    cnt = [0] * (n2 + 1)
+    tot = 0
+    for ln in lines:
+        toks = [t.strip('()') for t in ln.split()[1:]]
+        if len(toks) == 1 and toks[0].isdigit() and 1 <= int(toks[0]) <= n2:
+            cnt[int(toks[0])] += 1
+            tot += 1
+    if tot < 2500:
+        return Result(False, ['sampling', 'skipped:few_single_lists'])
+    got = sorted(c / float(tot) for c in cnt[1:])
+    hi = max(s, 1.0 / s)
+    w = [1.0 + i * (hi - 1.0) / (n2 - 1) for i in range(n2)]
+    want = sorted(x / sum(w) for x in w)
+    dev = max(abs(a - b) for a, b in zip(got, want))
+    LAST['dev'] = dev
+    tol = 7.0 * (0.25 / tot) ** 0.5
+    if dev > tol:
+        raise Violation('single_entry_share', 'skew %r, %d agents, %d lists of one entry: sorted '
+                        'frequencies %r, the linear popularity gives %r (tolerance %.3f)'
+                        % (s, n2, tot, [round(x, 3) for x in got], [round(x, 3) for x in want],
+                           tol))
+    return Result(True, ['sampling', 'sampling:single_entry_lists', 'mp=' + case['mp'],
+                         'sampling:dev<0.02' if dev < 0.02 else 'sampling:dev<0.05'])
+
+
 def run_sampling(case):
     """'The most popular agent is s times as likely to be drawn first as the least popular one',
     observed on the generated files without looking inside the generator: n1 = 3000 lists of
@@ -229,10 +280,14 @@ def run_sampling(case):
     share by less than 0.01).  The only other statistical oracle of the suite is in C08."""
     from .. import genargs, refmodel
     n1, n2, L, s = case['n1'], case['n2'], case['L'], case['s']
-    v = {'mp': case['mp'], 'numinst': 1, 'n1': n1, 'n2': n2, 'pmin': L, 'pmax': L, 'uq': max(n1, n2),
-         'skew': s, 'seed': case['seed']}
+    v = {'mp': case['mp'], 'numinst': 1, 'n1': n1, 'n2': n2, 'pmin': L, 'pmax': case.get('pmax', L),
+         'uq': max(n1, n2), 'skew': s, 'seed': case['seed']}
     if case['mp'] == 'spa':
         v.update(n3=2, luq=n1)
+    if case.get('twopl'):
+        v['twopl'] = True
+    if L == 1:
+        return run_sampling_single(case, v)
     outdir = genargs.fresh_outdir()
     try:
         status, code, err = genargs.run_generator(genargs.build_argv(v, outdir), v['seed'])
